@@ -61,8 +61,8 @@ REQUIRED_PROBES = {
             "c04_executor_lambda_checks"],
 }
 LAT = [0.0, 0.001, 1.0, 60.0, 3600.0]
-KEYS = ["k0", "k1", "k2", "K0", "never"]
-QVALS = [1, 2, 3, "x", [1, 2], "1", 1.0, 0, "", False, []]
+KEYS = ["k0", "k1", "k2", "K0", "title", "never"]
+QVALS = [1, 2, 3, "x", [1, 2], "1", 1.0, 0, "", False, [], 0.3, 0.1 + 0.2, 831.76, 831.7600001]
 
 # ---------------------------------------------------------------------------------------------
 # lambda catalog (opaque specs: never evaluated; chosen to walk every in-place-editing path)
@@ -178,8 +178,8 @@ def gen_site(rng, boom_ok=False):
     banned = {shadow} if shadow else set()
 
     def v():
-        names = (["G0", "G1", "K0.A", "K0.In.B", "simcfg.m", "@c1", "@c1"] if module_scope
-                 else ["G0", "G1", "K0.A", "K0.In.B", "simcfg.m", "c0", "c1"])
+        names = (["G0", "G1", "K0.A", "K0.In.B", "simcfg.m", "@c1", "@c1", "max"] if module_scope
+                 else ["G0", "G1", "K0.A", "K0.In.B", "simcfg.m", "c0", "c1", "min", "max"])
         cands = [n for n in names if n.split(".")[0] not in banned]
         n = rng.choice(cands)
         if n not in free:
@@ -299,7 +299,7 @@ def generate(prop: str, seed: int, tier: str = "quick", fault_free: bool = False
     big = (not fault_free) and c.random() < (0.02 if tier == "thorough" else 0.004)
     n_ds = c.randint(5, 8) if big else c.randint(1, 4)
     typed_ok = "typed" in faults and prop != "C04"
-    datasets = [{"typed": (c.randrange(3) if typed_ok and c.random() < 0.55 else -1)}
+    datasets = [{"typed": (c.randrange(4) if typed_ok and c.random() < 0.55 else -1)}
                 for _ in range(n_ds)]
     catalog = list(UNTYPED) + (list(TYPED) if any(d["typed"] >= 0 for d in datasets) else [])
     pool = [list(c.choice(catalog)) for _ in range(c.randint(3, 8))]
@@ -362,7 +362,7 @@ def generate(prop: str, seed: int, tier: str = "quick", fault_free: bool = False
         elif k == "qmd":
             md = {}
             for _ in range(w.randint(1, 2)):
-                k = w.choice(KEYS[:4])
+                k = w.choice(KEYS[:5])
                 # repeated keys with equal and different values: often re-use a value that the
                 # run already gave this key (set back to an earlier value, set again to the same)
                 if qhist.get(k) and w.random() < 0.4:
@@ -374,7 +374,7 @@ def generate(prop: str, seed: int, tier: str = "quick", fault_free: bool = False
                 md = {}
             ops.append({"op": "qmd", "parent": w.randrange(64), "md": md})
             if w.random() < 0.35:  # consecutive calls on the stream just made
-                md2 = {w.choice(KEYS[:4]): w.choice(QVALS)}
+                md2 = {w.choice(KEYS[:5]): w.choice(QVALS)}
                 ops.append({"op": "qmd", "parent": -1, "md": md2})
         elif k == "term":
             ops.append({"op": "term", "parent": w.randrange(64), "kind": w.choice(TERMS),
@@ -586,6 +586,8 @@ class Forest:
         self.tmpdir = None
         self.sync_block = 0.0
         self.by_id = {}
+        self.issued = []
+        self.n_issued = 0
         self.cur_id = -1
         self.cur_resolved = {}
         self.resolved = []
@@ -786,6 +788,19 @@ class Forest:
     # -- oracles that run after every op --------------------------------------------------------
     def check_all(self):
         if "C11" in self.oracles:
+            # streams handed out by callbacks that keep them are previously created streams too
+            while self.n_issued < len(self.zoo.ISSUED):
+                st = self.zoo.ISSUED[self.n_issued]
+                self.issued.append((st, self.snap_of(st), st.item_type))
+                self.n_issued += 1
+                self.stat("probe_callback_issued_stream_tracked")
+            for st, snap, it in self.issued:
+                now = self.snap_of(st)
+                if now != snap or st.item_type is not it:
+                    raise Violation(
+                        f"C11/snapshot/after-{self.last_op}",
+                        {"stream": "issued-by-callback", "made_by": "callback", "changed": "ast",
+                         "was": snap[0][:400], "now": now[0][:400]})
             for m in self.live:
                 s = self.snap_of(m.stream)
                 if s != m.snap or m.stream.item_type is not m.itype:
@@ -983,7 +998,7 @@ class Forest:
                      "python": repr(refs[bad])[:120], "query": repr(got[bad])[:120],
                      "bindings": {n: c.value[n] for n in site["free"]},
                      "shadow": site.get("shadow")})
-            loose = free_names(lam) - {"sum", "len", "abs", "max", "min"}
+            loose = free_names(lam) - {"sum", "len", "abs"}
             if loose:
                 raise Violation("C04/scope", {"site": site["lam"], "emitted": _safe_unparse(lam),
                                               "free_names_left_in_query": sorted(loose)})
